@@ -119,7 +119,9 @@ class RefineResult:
     matched: list = field(default_factory=list)        # [(our alt index, ref alt index)]
 
 
-def refine(our_g: dict, ref_g: dict):
+def refine(our_g: dict, ref_g: dict, delta_rules=None, only=None):
+    """`delta_rules`: rules not compared (default: the 3.12 delta); `only`: restrict to these (real) rule names"""
+    delta_rules = DELTA_RULES if delta_rules is None else delta_rules
     ours = {r["name"]: r for r in our_g["rules"]}
     refs = {RENAME.get(r["name"], r["name"]): r for r in ref_g["rules"]}
     # pure alias rules (action-less ordered choice of single names/literals) are expanded on both sides, so that
@@ -128,10 +130,10 @@ def refine(our_g: dict, ref_g: dict):
     a_ref = alias_rules(ref_g, "ref")
     results = []
     for name, r in ours.items():
-        if name.startswith("invalid_") or name not in refs:
+        if name.startswith("invalid_") or name not in refs or (only is not None and name not in only):
             continue
-        if name in DELTA_RULES:
-            results.append(RefineResult(name, "assumed-delta", DELTA_RULES[name]))
+        if name in delta_rules:
+            results.append(RefineResult(name, "assumed-delta", delta_rules[name]))
             continue
         A = alt_forms(r, "our", a_our)
         B = [b for b in alt_forms(refs[name], "ref", a_ref) if not is_invalid_alt(b)]
